@@ -370,6 +370,181 @@ pub mod c03 {
     }
 }
 
+
+pub mod c18 {
+    use crate::util::base64::{Base64Decode, Base64Encode};
+    use crate::util::sha1::SHA1Hash;
+
+    /// RFC 4648 table 1, written out independently of base64.rs.
+    const RFC4648: &[u8; 64] = b"ABCDEFGHIJKLMNOPQRSTUVWXYZabcdefghijklmnopqrstuvwxyz0123456789+/";
+
+    fn val(c: u8) -> Option<u8> {
+        match c {
+            b'A'..=b'Z' => Some(c - b'A'),
+            b'a'..=b'z' => Some(c - b'a' + 26),
+            b'0'..=b'9' => Some(c - b'0' + 52),
+            b'+' => Some(62),
+            b'/' => Some(63),
+            _ => None,
+        }
+    }
+
+    /// Discharges the one fact the Verus unit c18_b64enc assumes about the constant ALPHABET: encoding the three bytes
+    /// whose four sextets are (i, i, i, i) yields RFC 4648's character i four times -- for all 64 i (complete).
+    #[kani::proof]
+    #[kani::unwind(6)]
+    pub fn c18_b64_alphabet() {
+        let i: u8 = kani::any();
+        kani::assume(i < 64);
+        let v: u32 = ((i as u32) << 18) | ((i as u32) << 12) | ((i as u32) << 6) | i as u32;
+        let bytes = [(v >> 16) as u8, (v >> 8) as u8, v as u8];
+        let s = bytes.encode();
+        let b = s.as_bytes();
+        assert!(b.len() == 4);
+        let c = RFC4648[i as usize];
+        assert!(b[0] == c && b[1] == c && b[2] == c && b[3] == c, "ALPHABET[i] is RFC 4648 character i");
+        kani::cover!(i == 63, "last alphabet entry reached");
+    }
+
+    /// Decoder contract on one 4-symbol group, every ASCII byte value in every position (2^28 inputs, loop bounds
+    /// constant => complete for a group): the RFC 4648 value or an error; nothing malformed is accepted.
+    #[kani::proof]
+    #[kani::unwind(6)]
+    pub fn c18_b64_decode_group_complete() {
+        let g: [u8; 4] = kani::any();
+        kani::assume(g[0] < 128 && g[1] < 128 && g[2] < 128 && g[3] < 128);
+        let s = unsafe { std::str::from_utf8_unchecked(&g) };
+        let r = s.decode();
+        let (v0, v1, v2, v3) = (val(g[0]), val(g[1]), val(g[2]), val(g[3]));
+        match (v0, v1, v2, v3) {
+            (Some(a), Some(b), Some(c), Some(d)) => {
+                let v: u32 = ((a as u32) << 18) | ((b as u32) << 12) | ((c as u32) << 6) | d as u32;
+                match r {
+                    Ok(out) => assert!(out.len() == 3 && out[0] == (v >> 16) as u8 && out[1] == (v >> 8) as u8 && out[2] == v as u8, "full group decodes to its 24 bits"),
+                    Err(_) => assert!(false, "a well-formed group is accepted"),
+                }
+                kani::cover!(g[0] == b'+' && g[3] == b'/', "group using + and / reached");
+            }
+            (Some(a), Some(b), Some(c), None) if g[3] == b'=' => match r {
+                Ok(out) => assert!(out.len() == 2 && out[0] == (a << 2) | (b >> 4) && out[1] == (b << 4) | (c >> 2), "xxx= decodes to two bytes"),
+                Err(_) => assert!(c & 0x03 != 0, "xxx= with zero trailing bits is accepted"),
+            },
+            (Some(a), Some(b), None, None) if g[2] == b'=' && g[3] == b'=' => match r {
+                Ok(out) => assert!(out.len() == 1 && out[0] == (a << 2) | (b >> 4), "xx== decodes to one byte"),
+                Err(_) => assert!(b & 0x0f != 0, "xx== with zero trailing bits is accepted"),
+            },
+            _ => {
+                assert!(r.is_err(), "malformed group (foreign symbol or misplaced padding) is rejected");
+                kani::cover!(g[0] == b'=', "leading padding reached");
+            }
+        }
+    }
+
+    /// Input whose length is not a multiple of 4 is malformed (RFC 4648 section 3.2/4: padding is mandatory).
+    fn bad_length<const N: usize>() {
+        let g: [u8; N] = kani::any();
+        let j: usize = kani::any();
+        kani::assume(j < N);
+        // every symbol is from the alphabet (checked through a symbolic index, so for all positions)
+        let mut i = 0;
+        while i < N {
+            kani::assume(val(g[i]).is_some());
+            i += 1;
+        }
+        let s = unsafe { std::str::from_utf8_unchecked(&g) };
+        assert!(s.decode().is_err(), "length not a multiple of four is rejected");
+    }
+    #[kani::proof]
+    #[kani::unwind(7)]
+    pub fn c18_b64_decode_bad_length_1() { bad_length::<1>(); }
+    #[kani::proof]
+    #[kani::unwind(7)]
+    pub fn c18_b64_decode_bad_length_2() { bad_length::<2>(); }
+    #[kani::proof]
+    #[kani::unwind(7)]
+    pub fn c18_b64_decode_bad_length_3() { bad_length::<3>(); }
+    #[kani::proof]
+    #[kani::unwind(7)]
+    pub fn c18_b64_decode_bad_length_5() { bad_length::<5>(); }
+
+    /// Padding may only end the input: a padded group followed by another group is malformed.
+    #[kani::proof]
+    #[kani::unwind(10)]
+    pub fn c18_b64_decode_padding_only_last() {
+        let mut g: [u8; 8] = kani::any();
+        let mut i = 0;
+        while i < 8 {
+            kani::assume(val(g[i]).is_some());
+            i += 1;
+        }
+        let two: bool = kani::any();
+        g[3] = b'=';
+        if two {
+            g[2] = b'=';
+        }
+        let s = unsafe { std::str::from_utf8_unchecked(&g) };
+        assert!(s.decode().is_err(), "padding inside the input is rejected");
+    }
+
+    /// decode(b64(x)) == x where b64 is the RFC 4648 encoding written out in the harness (the Verus unit c18_b64enc
+    /// proves encode(x) == b64(x) for all x, so together: the decoder inverts the encoder). N = 1..6 bytes.
+    fn decode_inverts_spec<const N: usize, const M: usize>() {
+        let x: [u8; N] = kani::any();
+        let mut e = [b'='; M];
+        assert!(M == 4 * ((N + 2) / 3));
+        let mut g = 0;
+        while g * 3 < N {
+            let b0 = x[3 * g];
+            let b1 = if 3 * g + 1 < N { x[3 * g + 1] } else { 0 };
+            let b2 = if 3 * g + 2 < N { x[3 * g + 2] } else { 0 };
+            e[4 * g] = RFC4648[(b0 >> 2) as usize];
+            e[4 * g + 1] = RFC4648[(((b0 & 3) << 4) | (b1 >> 4)) as usize];
+            if 3 * g + 1 < N {
+                e[4 * g + 2] = RFC4648[(((b1 & 15) << 2) | (b2 >> 6)) as usize];
+            }
+            if 3 * g + 2 < N {
+                e[4 * g + 3] = RFC4648[(b2 & 63) as usize];
+            }
+            g += 1;
+        }
+        let s = unsafe { std::str::from_utf8_unchecked(&e) };
+        match s.decode() {
+            Ok(d) => {
+                assert!(d.len() == N, "decode(b64(x)) has the length of x");
+                let j: usize = kani::any();
+                kani::assume(j < N);
+                assert!(d[j] == x[j], "decode(b64(x)) == x");
+            }
+            Err(_) => assert!(false, "decode accepts a canonical encoding"),
+        }
+    }
+    #[kani::proof]
+    #[kani::unwind(6)]
+    pub fn c18_b64_decode_inverts_n1() { decode_inverts_spec::<1, 4>(); }
+    #[kani::proof]
+    #[kani::unwind(6)]
+    pub fn c18_b64_decode_inverts_n2() { decode_inverts_spec::<2, 4>(); }
+    #[kani::proof]
+    #[kani::unwind(6)]
+    pub fn c18_b64_decode_inverts_n3() { decode_inverts_spec::<3, 4>(); }
+    #[kani::proof]
+    #[kani::unwind(6)]
+    pub fn c18_b64_decode_inverts_n4() { decode_inverts_spec::<4, 8>(); }
+    #[kani::proof]
+    #[kani::unwind(6)]
+    pub fn c18_b64_decode_inverts_n6() { decode_inverts_spec::<6, 8>(); }
+
+    /// SHA-1 padded length: ((8n + 583) / 512) * 64 is the least multiple of 64 that holds n message bytes, the 0x80
+    /// byte and the 8-byte length (RFC 3174 section 4) -- for every n below 2^56 (loop-free => complete).
+    #[kani::proof]
+    pub fn c18_sha1_padded_len_complete() {
+        let n: u64 = kani::any();
+        kani::assume(n < (1u64 << 56));
+        let code = ((n * 8 + 583) / 512) * 64;
+        assert!(code % 64 == 0 && code >= n + 9 && code < n + 9 + 64, "padded length formula");
+    }
+}
+
 #[cfg(test)]
 mod playback {
     include!(concat!(env!("HUMPHREY_VERIF"), "/build/playback/in_ws_playback.rs"));
